@@ -26,12 +26,15 @@ RULE += (
 RULE += (
     " Also: damage whose residue is 0xFFFFFF and neighbours."
 )
+RULE += (
+    " Also: streams made of every pinned message type laid out from the pinned layouts; readers under label options 1 / 2 / True."
+)
 ASSUMPTIONS = [
     "all frames of the stream are parseable when undamaged (payload >= natural length of their type)",
     "damage never touches the 3 header bytes (the property is stated for payload and checksum bytes)",
     "without a user handler only the delivered frames are checked (log records are counted as evidence)",
 ]
-GATES = ["events_checked", "mode0", "mode1", "mode2", "handler_calls_checked", "raise_resumed",
+GATES = ["pinned_layout_streams", "events_checked", "mode0", "mode1", "mode2", "handler_calls_checked", "raise_resumed",
          "pos:crc", "pos:payload", "pos:straddle", "backend:buffered", "backend:pipe", "backend:makefile",
          "backend:bytesio", "backend:socket", "raise_via_next", "raise_via_read", "raise_via_held_iterator",
          "long_damaged_runs"]
@@ -129,7 +132,8 @@ def run_case(ctx, frames, damage, mode, handler, backend="file"):
     else:
         stream = io.BytesIO(data)
     with common.capture_logs("pyrtcm") as cap:
-        rdr = RTCMReader(stream, validate=1, quitonerror=mode, errorhandler=(user_handler if handler else None))
+        rdr = RTCMReader(stream, validate=1, quitonerror=mode, errorhandler=(user_handler if handler else None),
+                         labelmsm=(1, 2, True)[len(data) % 3])
         problem = None
         if mode in (0, 1):
             try:
@@ -321,6 +325,29 @@ def run(ctx):
     for it in range(ctx.n(2, 30)):
         mode, handler = combos[(it + ctx.worker) % 6]
         long_run_case(ctx, rng, mode, handler)
+    # every message type with a pinned field layout at least a few times per run, laid out from the PINNED layout with
+    # varied counts and presence flags, twelve to a stream, one frame of each stream damaged
+    from vf import refmodel, stdlayout
+
+    pins = [i for k, i in enumerate(sorted(stdlayout.LAYOUT)) if ctx.mine(k) and i in _defined()]
+    batch = []
+    for identity in pins:
+        for cs in ("one", "small", "random") * (4 if ctx.quick else 24):
+            try:
+                e_ = refmodel.build(identity, rng, rng.choice(("random", "mixed", "ones")), cs, "random",
+                                    tabs=(stdlayout.LAYOUT, stdlayout.F))
+            except Exception:
+                continue
+            if len(e_.payload) <= 1023:
+                batch.append(refcrc.frame(e_.payload))
+    for a in range(0, len(batch), 12):
+        frames = batch[a:a + 12]
+        if len(frames) < 2:
+            continue
+        i = rng.randrange(len(frames))
+        mode, handler = combos[(a // 12) % 6]
+        run_case(ctx, frames, {i: damage_for(rng, frames[i])}, mode, handler, ("bytesio", "file", "socket")[(a // 12) % 3])
+        ctx.hit("pinned_layout_streams")
 
 
 def long_run_case(ctx, rng, mode, handler):
